@@ -5,5 +5,6 @@ CONSTANTS
   MaxCalls = 2
   NopProcs = {}
   Variant = "outside"
+  Ctxs = {"live"}
 INVARIANTS Accounted
 CHECK_DEADLOCK FALSE
